@@ -211,7 +211,7 @@ func (n *Normalizer) stmts(ss []Stmt, ret Term, e *env, blk *Block) Term {
 			v := n.term(x.Val, e)
 			switch x.Mode {
 			case LetSingle:
-				if len(x.Vars) == 1 && x.Vars[0] != nil && (n.loopVars[x.Vars[0]] || (n.KeepShared && n.uses[x.Vars[0]] > 1 && hasApp(v))) {
+				if len(x.Vars) == 1 && x.Vars[0] != nil && (n.loopVars[x.Vars[0]] || (n.KeepShared && n.uses[x.Vars[0]] > 1 && (hasApp(v) || isMutableZero(v)))) {
 					effs = append(effs, &AssignT{LHS: &Local{Obj: x.Vars[0]}, RHS: v, Op: ":="})
 				} else if len(x.Vars) == 1 && x.Vars[0] != nil {
 					e = e.bind(x.Vars[0], v)
@@ -854,4 +854,14 @@ func hasApp(t Term) bool {
 		return !found
 	})
 	return found
+}
+
+// isMutableZero: the zero value of a struct type (a buffer, a builder): an object with identity, not a value.
+func isMutableZero(t Term) bool {
+	z, ok := t.(*Zero)
+	if !ok || z.Type == nil {
+		return false
+	}
+	_, isStruct := z.Type.Underlying().(*types.Struct)
+	return isStruct
 }
